@@ -154,4 +154,25 @@ Proof.
   - rewrite map_put_put in HS2. exact HS2.
 Qed.
 
+(* two descriptions of the same amount in different units store equal totals *)
+Lemma unit_change_gen : forall st su T d src m g u1 u2,
+  SolIn su T st -> strstr_val su "/l" = VP false ->
+  good_desc o d -> spec_gfw o d src = Some g -> 0 < g -> 0 < m ->
+  (match src with GAs f => f <> "" | _ => True end) ->
+  exists fl1 st1 q1 fl2 st2 q2,
+    exec_list o no_funs comps_body (bind_record (line_record (mkLine d u1 src (describe u1 m g))) st) = Some (fl1, st1) /\
+    exec_list o no_funs comps_body (bind_record (line_record (mkLine d u2 src (describe u2 m g))) st) = Some (fl2, st2) /\
+    fl1 <> FReturn /\ fl2 <> FReturn /\ q1 == q2 /\
+    SolIn su (map_put d (VQ q1) T) st1 /\ SolIn su (map_put d (VQ q2) T) st2.
+Proof.
+  intros st su T d src m g u1 u2 HS Hl Hgd Hspec Hg Hm Hne.
+  destruct (body_ok st su T (mkLine d u1 src (describe u1 m g)) m g HS Hl Hgd Hspec Hg Hm eq_refl Hne)
+    as (fl1 & st1 & q1 & H1 & F1 & E1 & S1).
+  destruct (body_ok st su T (mkLine d u2 src (describe u2 m g)) m g HS Hl Hgd Hspec Hg Hm eq_refl Hne)
+    as (fl2 & st2 & q2 & H2 & F2 & E2 & S2).
+  exists fl1, st1, q1, fl2, st2, q2.
+  split; [exact H1|]. split; [exact H2|]. split; [exact F1|]. split; [exact F2|].
+  split; [rewrite E1, E2; reflexivity|]. split; [exact S1|exact S2].
+Qed.
+
 End Body.
